@@ -16,6 +16,7 @@ PROPS["C12"] = {
         ]},
         {"pkg": "input", "hdir": "input", "specs": [
             _c12("tcp/conn/L<=3", "VerifC12Conn", {"L": "3", "zeros": "0"}),
+            _c12("tcp/conn/stalled-sender/L<=4", "VerifC12StalledSender", {"L": "4"}),
         ]},
         {"pkg": "input", "hdir": "input", "specs": [
             _c12("tcp/plain/L<=4", "VerifC12Plain", {"L": "4", "zeros": "0"}),
